@@ -20,6 +20,11 @@ type Monitor interface {
 	AfterStep(c *sim.Cluster) []ev.Violation
 }
 
+// Counted is implemented by monitors that report vacuity counters.
+type Counted interface {
+	Counters() map[string]int
+}
+
 // Stats are per-execution counters the monitors fill for the evidence.
 type Stats struct {
 	CommonBlocksUnequalViews int // C01 non-triviality: a block index delivered by ≥2 nodes whose event sets differed at that time
@@ -308,4 +313,8 @@ func bytesEq(a, b [][]byte) bool {
 		}
 	}
 	return true
+}
+
+func (m *Finality) Counters() map[string]int {
+	return map[string]int{"c02_block_reads": m.Reads, "c02_evicted_reads": m.Evictions}
 }
